@@ -144,10 +144,15 @@ def scale_case(cid, rng, schema):
     return {"id": cid, "schema": schema, "ops": full, "_metas": metas, "_index": index, "_scale": True}
 
 
-def many_case(cid, rng, schema, n_roots=350, n_subs=400):
-    """Hundreds of crates, judged once at the end against a forest model (sets; adjacency for create-after on 2.x)."""
+def many_case(cid, rng, schema, n_roots=350, n_subs=400, chain=80, first_id=None):
+    """Hundreds of crates, judged once at the end against a forest model (sets; adjacency for create-after on 2.x).
+    `chain`: a single line of that many nested crates hangs under the first root.  `first_id` (2.x): the id counter of
+    the crate table is advanced first, as a long-lived or merged library would have it, so that the ids in the
+    listings straddle 2^31 or 2^32."""
     v2 = schema.startswith("2.")
-    ops = [{"op": "create_temporary", "schema": schema}]
+    # re-parenting inside a deep line costs ~ depth^2 x table size VDBE steps on 1.x (one statement per pair over an
+    # unindexed table): the termination budget is scaled to the size of this case, not the default for small forests
+    ops = [{"op": "create_temporary", "schema": schema}, {"op": "set_budget", "vdbe": 4 * 10 ** 9}]
     parent, name, alive = {}, {}, {}
     hs = []
     after_of = {}
@@ -167,6 +172,15 @@ def many_case(cid, rng, schema, n_roots=350, n_subs=400):
         else:
             ops.append({"op": "create_root_crate", "name": FO.hx(nm), "as": h})
         new(h, None, nm)
+        if i == 0 and first_id is not None and v2:
+            ops.append({"op": "raw_exec", "sql": "UPDATE sqlite_sequence SET seq = %d WHERE name = 'Playlist'" % (first_id - 1)})
+    line = ["c0"]
+    for i in range(chain):
+        h = "c%d" % len(hs)
+        nm = "level %03d" % i
+        ops.append({"op": "create_sub_crate", "c": line[-1], "name": FO.hx(nm), "as": h})
+        new(h, line[-1], nm)
+        line.append(h)
     for i in range(n_subs):
         h = "c%d" % len(hs)
         p = rng.choice(hs[: max(20, len(hs) // 3)])
@@ -182,10 +196,24 @@ def many_case(cid, rng, schema, n_roots=350, n_subs=400):
             st.extend(y for y in hs if alive[y] and parent[y] == x)
         return out
 
-    for _ in range(60):
+    keep = set(line)
+    for step in range(61):
         live = [x for x in hs if alive[x]]
         r = rng.random()
         c = rng.choice(live)
+        if step == 60:
+            # the lower quarter of the line moves, as one piece, under some other root
+            c = line[3 * len(line) // 4]
+            d = set(desc(c))
+            cand = [x for x in live if x != c and x not in d and parent[x] is None and x != line[0]]
+            if not cand:
+                break
+            p = rng.choice(cand)
+            ops.append({"op": "set_parent", "c": c, "parent": p})
+            parent[c] = p
+            break
+        if c in keep and r >= 0.35:
+            r = 0.0   # the line itself is only renamed by the random part, so that it keeps its depth
         if r < 0.35:
             nm = "renamed %d" % rng.randrange(10 ** 6)
             ops.append({"op": "set_name", "c": c, "name": FO.hx(nm)})
@@ -205,11 +233,41 @@ def many_case(cid, rng, schema, n_roots=350, n_subs=400):
             ops.append({"op": "remove_crate", "c": c})
     tail = len(ops)
     ops += [{"op": "db_query", "q": "crates"}, {"op": "db_query", "q": "root_crates"}]
-    probe = rng.sample([x for x in hs if alive[x]], 25)
+    live_now = [x for x in hs if alive[x]]
+    probe = rng.sample(live_now, min(25, len(live_now)))
+    # the top and the middle of the line of nested crates are always probed
+    for x in (line[0], line[len(line) // 2]):
+        if alive[x] and x not in probe:
+            probe.append(x)
     for x in probe:
         ops += [{"op": "crate_query", "c": x, "q": "children"}, {"op": "crate_query", "c": x, "q": "descendants"},
                 {"op": "crate_query", "c": x, "q": "parent"}, {"op": "crate_query", "c": x, "q": "name"}]
-    model = {"parent": parent, "name": name, "alive": alive, "hs": hs, "after_of": after_of, "probe": probe, "tail": tail}
+    # a cycle through the deepest living crate of the line must be refused and change nothing
+    cyc = None
+
+    def depth_below(top, x):
+        n = 0
+        while x != top:
+            x = parent[x]
+            n += 1
+        return n
+
+    # the longest surviving stretch of the line: from its highest living member to that member's deepest descendant
+    tops = [x for x in line if alive[x]]
+    best = None
+    for top in tops[:1] + tops[len(tops) // 4:len(tops) // 4 + 1]:
+        dd = desc(top)
+        if dd:
+            bottom = max(dd, key=lambda x: depth_below(top, x))
+            if best is None or depth_below(top, bottom) > best[2]:
+                best = (top, bottom, depth_below(top, bottom))
+    if best:
+        cyc = (best[0], best[1], len(ops), best[2])
+        line = [best[0]]
+        ops += [{"op": "set_parent", "c": line[0], "parent": best[1]}, {"op": "crate_query", "c": line[0], "q": "parent"},
+                {"op": "crate_query", "c": line[0], "q": "descendants"}, {"op": "db_query", "q": "crates"}]
+    model = {"parent": parent, "name": name, "alive": alive, "hs": hs, "after_of": after_of, "probe": probe, "tail": tail, "cycle": cyc,
+             "chain": chain, "first_id": first_id if v2 else None}
     return {"id": cid, "schema": schema, "ops": ops, "_many": model}
 
 
@@ -269,6 +327,26 @@ def judge_many(ctx, res):
             ctx.violation(f"wrong-parent {fam} many-crates", f"{schema}: parent() = {pa}", wit)
         if nm != FO.hx(m["name"][x]):
             ctx.violation(f"wrong-name {fam} many-crates", f"{schema}: name() differs from the model", wit)
+    ctx.extra["many_max_chain_depth"] = max(ctx.extra.get("many_max_chain_depth", 0), m["chain"])
+    if m.get("first_id"):
+        ctx.bump_in("many_cases_with_first_crate_id", str(m["first_id"]))
+        ctx.extra["many_max_crate_id"] = max(ctx.extra.get("many_max_crate_id", 0), max(hid.values()))
+    if m.get("cycle"):
+        top, bottom, at, levels = m["cycle"]
+        ctx.bump("deep_cycle_attempts")
+        ctx.extra["deep_cycle_max_levels"] = max(ctx.extra.get("deep_cycle_max_levels", 0), levels)
+        ctx.bump_in("deep_cycle_levels", str(levels // 10 * 10) + "+")
+        dd, st = [], [y for y in live if m["parent"][y] == top]
+        while st:
+            y = st.pop()
+            dd.append(hid[y])
+            st.extend(z for z in live if m["parent"][z] == y)
+        if "exc" not in evs[at]:
+            ctx.violation(f"cycle-accepted {fam} many-crates", f"{schema}: set_parent of a crate onto its own descendant {len(dd)} levels of nesting away was accepted", wit)
+        want_pa = hid[m["parent"][top]] if m["parent"][top] else None
+        if evs[at + 1].get("ret", "?") != want_pa or sorted(evs[at + 2].get("ret") or []) != sorted(dd) or \
+                sorted(evs[at + 3].get("ret") or []) != sorted(hid[h] for h in live):
+            ctx.violation(f"refused-cycle-changed-something {fam} many-crates", f"{schema}: after a refused deep cycle attempt the hierarchy differs from the model", wit)
 
 
 def opdesc(meta):
@@ -465,8 +543,14 @@ def run(ctx):
         n += 1
     ctx.extra["scale_cases"] = len(ALL_SCHEMAS)
     for schema in ALL_SCHEMAS:
-        cases.append(many_case("m%d" % n, ctx.rng, schema, 350 if ctx.tier == "quick" else 1200, 400 if ctx.tier == "quick" else 1500))
+        cases.append(many_case("m%d" % n, ctx.rng, schema, 350 if ctx.tier == "quick" else 1200, 400 if ctx.tier == "quick" else 1500,
+                               chain=80 if ctx.tier == "quick" else 150))
         n += 1
+        if schema.startswith("2."):
+            # crate ids straddling 2^31 and 2^32
+            for first in ([2 ** 31 - 20] if ctx.tier == "quick" else [2 ** 31 - 20, 2 ** 32 - 20, 2 ** 53, 2 ** 62]):
+                cases.append(many_case("m%d" % n, ctx.rng, schema, 30, 60, chain=20, first_id=first))
+                n += 1
     alpha = exhaustive_alphabet()
     depth = 2 if ctx.tier == "quick" else 3
     nexh = 0
